@@ -21,7 +21,7 @@ Definition obs_of (r : result) : obs :=
   match r with (o, e, x) => mko o e x false end.
 
 (* canonical-scheduler fuel for the prediction: far above what generated programs need *)
-Definition c03_fuel : nat := 50 * 100.
+Definition c03_fuel : nat := 200 * 200.
 
 (* correspondence: every observed run equals the model's (schedule independent) prediction,
    and the program is inside the modelled domain *)
